@@ -197,7 +197,10 @@ func coseMutations() []coseMut {
 	add("crit:names-crit", func(b *coseBuild, c *coseCtx) { caddCrit(b, cInt(2)) })
 	add("crit:names-time", func(b *coseBuild, c *coseCtx) { caddCrit(b, cTstr(tk(c))) })
 	// crit naming a header of the specification that this envelope does not carry
-	add("crit:names-expiry-absent", func(b *coseBuild, c *coseCtx) { cdropP(b, "io.cncf.notary.expiry"); caddCrit(b, cTstr("io.cncf.notary.expiry")) })
+	add("crit:names-expiry-absent", func(b *coseBuild, c *coseCtx) {
+		cdropP(b, "io.cncf.notary.expiry")
+		caddCrit(b, cTstr("io.cncf.notary.expiry"))
+	})
 	add("crit:names-other-time-absent", func(b *coseBuild, c *coseCtx) {
 		if c.scheme == "notary.x509" {
 			caddCrit(b, cTstr("io.cncf.notary.authenticSigningTime"))
